@@ -16,6 +16,11 @@ def generate(tier, seed):
                 for writer in (0, 1):
                     for handle in (0, 1, 2):
                         cases.append("stress %d %d %d %d %d %d" % (th, cached, writer, handle, rnd.randrange(1 << 30), iters))
+    # a thread that keeps the role-manager handle's WRITE guard for 30 ms at a time (a batch of unrelated links under one guard)
+    for th in (2, 8):
+        for cached in (0, 1):
+            for writer in (0, 1):
+                cases.append("stress %d %d %d 3 %d %d" % (th, cached, writer, rnd.randrange(1 << 30), max(200, iters // 5)))
     # pattern-heavy model (200 rules, 400 distinct keyMatch2 / keyMatch3 / regexMatch patterns), no writer: the exported matcher
     # functions are called from many threads with more distinct patterns than a compiled-pattern cache would hold
     for th in (2, 8, 16):
@@ -25,7 +30,7 @@ def generate(tier, seed):
         "cases": cases,
         "exhaustive": False,
         "rule": ("threads in {2,4,8,16} x {Enforcer, CachedEnforcer} x {no writer, writer applying a 10-step history under an outer RwLock} x "
-                 "{no handle thread, a thread reading through get_role_manager(), a thread reading AND writing unrelated links through it}; every thread issues %d requests drawn, in a seeded order, from the 20-request cross "
+                 "{no handle thread, a thread reading through get_role_manager(), a thread reading AND writing unrelated links through it, a thread holding the handle's write guard for 30 ms at a time}; every thread issues %d requests drawn, in a seeded order, from the 20-request cross "
                  "product asked plainly and under a hand-assembled context selecting a second matcher (40 distinct questions); each decision must equal the serial decision of some prefix state, the final state must be the serial end "
                  "state, and all threads must finish within the watchdog bound. non-trivial = a writer or a handle thread runs concurrently" % iters),
         "distribution": {"iterations_per_thread": iters, "configurations": len(cases)},
